@@ -444,6 +444,20 @@ func genCrashCase(r *kit.Rand, tier string, txnBias bool) CrashCase {
 		}
 		c.Crashes = append(c.Crashes, cp)
 	}
+	// A power loss after an earlier process death would also test whether
+	// recovery re-syncs log content that it replayed from the page cache - an
+	// obligation the statement does not make (it speaks of process death; the
+	// power-loss model covers fsync-before-acknowledge and fsync-before-rename).
+	// Power losses therefore come first in a run, process deaths after them.
+	last := -1
+	for i, cp := range c.Crashes {
+		if cp.Power {
+			last = i
+		}
+	}
+	for i := 0; i < last; i++ {
+		c.Crashes[i].Power = true
+	}
 	return c
 }
 
@@ -472,7 +486,7 @@ func shrinkCrashCase(c CrashCase) []CrashCase {
 				}
 				out = append(out, d)
 			}
-			if cp.Power {
+			if cp.Power && (i == len(c.Crashes)-1 || !c.Crashes[i+1].Power) {
 				d := c
 				d.Crashes = append([]CrashPt(nil), c.Crashes...)
 				d.Crashes[i].Power = false
